@@ -284,6 +284,53 @@ def runL (fl : Rat → Rat) (val : Nat → Act → Rat) : Nat → Learner → Li
     | (_, .err e) => [.err e]
     | (L', o) => o :: runL fl val (k + 1) L' ops
 
+/-! ### the pmfs as the implementation computes them (every operation through `fl`); with
+`flDouble` the driver's values are compared with the real `score` for equality -/
+
+/-- `[1/len(actions)*eps + int(i in max_indexes)/len(max_indexes)*(1-eps)]` -/
+def epsPmfValsF (fl : Rat → Rat) (eps : Rat) (vals : List Rat) : List Rat :=
+  match vals with
+  | [] => []
+  | v :: vs =>
+    let mx := maxOf v vs
+    let k := (vals.filter (fun q => q = mx)).length
+    let n := vals.length
+    vals.map (fun q => fl (fl (fl (1 / (n : Rat)) * eps) + fl (fl ((if q = mx then 1 else 0) / (k : Rat)) * fl (1 - eps))))
+
+/-- `[int(a in S)/len(S) for a in actions]` -/
+def uniformOnF (fl : Rat → Rat) (S : List Act) (k : Nat) (actions : List Act) : List Rat :=
+  actions.map (fun a => fl ((if a ∈ S then 1 else 0) / (k : Rat)))
+
+def Ucb.pmfF (fl : Rat → Rat) (val : Act → Rat) (st : Ucb) (actions : List Act) : List Rat :=
+  let never := actions.filter (fun a => !dhas st.m a)
+  if never ≠ [] then uniformOnF fl never (distinct never).length actions
+  else
+    match actions with
+    | [] => []
+    | a0 :: rest =>
+      let mx := maxOf (val a0) (rest.map val)
+      let best := actions.filter (fun a => val a = mx)
+      uniformOnF fl best best.length actions
+
+def Kind.pmfF (fl : Rat → Rat) (val : Act → Rat) (k : Kind) (actions : List Act) : List Rat :=
+  match k with
+  | .eps st => epsPmfValsF fl st.eps (actions.map st.q)
+  | .ucb st => st.pmfF fl val actions
+  | .fixed p => p
+  | .random => List.replicate actions.length (fl (1 / (actions.length : Rat)))
+
+/-- the float pmf in force at every predict / score call of a history (`[]` at learn calls) -/
+def runLF (fl : Rat → Rat) (val : Nat → Act → Rat) : Nat → Learner → List Op → List (List Rat)
+  | _, _, [] => []
+  | k, L, op :: ops =>
+    let cur := match op with
+      | .predict actions => L.kind.pmfF fl (val k) actions
+      | .score actions _ => L.kind.pmfF fl (val k) actions
+      | .learn _ _ => []
+    match stepL fl (val k) L op with
+    | (_, .err _) => [cur]
+    | (L', _) => cur :: runLF fl val (k + 1) L' ops
+
 /-! ### CorralLearner -/
 
 structure Corral where
